@@ -27,10 +27,13 @@ def classify_add(ad, bd):
 
 def main():
   rep = vlib.Report(PROP, "proof")
-  from translate import qtoolsops
+  from translate import qtoolsops, mergegen
   gen = qtoolsops.emit(vlib.GEN)
-  info = vlib.build_obligations(PROP, gen_files=[gen], extra_files=[os.path.join(vlib.COQ, "theories", "Link", "QToolsLink.v")])
-  errs = rep.obligations(info, "python3 tools/translate/qtoolsops.py coq/gen && coqc coq/gen/QToolsOps.v && coqc coq/theories/Link/QToolsLink.v && coqc coq/theories/Properties/C17.v")
+  mgen = mergegen.emit(vlib.GEN)
+  info = vlib.build_obligations(PROP, gen_files=[gen, mgen], extra_files=[os.path.join(vlib.COQ, "theories", "Link", "QToolsLink.v"),
+                                                                         os.path.join(vlib.COQ, "theories", "Link", "MergeLink.v")])
+  errs = rep.obligations(info, "python3 tools/translate/qtoolsops.py coq/gen && python3 tools/translate/mergegen.py coq/gen && coqc coq/gen/QToolsOps.v coq/gen/MergeGen.v "
+                         "&& coqc coq/theories/Link/QToolsLink.v coq/theories/Link/MergeLink.v && coqc coq/theories/Properties/C17.v")
   for e in errs:
     rep.violation("obligation-" + os.path.basename(e["file"]), "proof obligation no longer checks: " + e["error"][-400:],
                   {"file": e["file"]}, no_input=True)
@@ -87,18 +90,24 @@ def main():
   # merges
   nm = 150 if rep.tier == "quick" else 1500
   for _ in range(nm):
-    k = int(rng.integers(2, 4))
+    k = 1 + (_ % 4)                      # 1 .. 4 operands, in rotation
     sel = [ops[int(i)] for i in rng.integers(0, len(ops), size=k)]
+    if _ % 5 == 0:
+      sel = [sel[0]] * k                 # identical operands: Maximum / Concatenate return the operand type itself
     lit = "[" + "; ".join(QK.qt_lit(o) for _, _, o in sel) + "]"
-    for lt, fn in (("Add", "merge_add"), ("Maximum", "merge_max"), ("Concatenate", "merge_max")):
+    # the hand model and (translator validation) the function regenerated from merge_factory.py on this run
+    for lt, fn in (("Add", "merge_add"), ("Maximum", "merge_max"), ("Concatenate", "merge_max"), ("Minimum", "merge_max"), ("Average", "merge_max"),
+                   ("Add", "gen_merge_add"), ("Maximum", "gen_merge_max")):
+      if fn.startswith("gen_") and errs:
+        continue
       try:
         got = QK.render(mg.make_quantizer([(o, None) for _, _, o in sel], lt).output)
       except Exception as e:  # pylint: disable=broad-except
         got = ["raise", type(e).__name__]
-      items.append((f"{lt}[{', '.join(d for d, _, _ in sel)}]", got))
+      items.append((f"{lt}{'(regenerated)' if fn.startswith('gen_') else ''}[{', '.join(d for d, _, _ in sel)}]", got))
       texts.append(f"render ({fn} {lit})")
   SH = 1500
-  shards = [(f"{PROP}_a_{s // SH:03d}", QK.HEADER + "".join(f"Eval vm_compute in {t}.\n" for t in texts[s:s + SH]))
+  shards = [(f"{PROP}_a_{s // SH:03d}", QK.HEADER + ("" if errs else "From QVGen Require Import QToolsOps MergeGen.\n") + "".join(f"Eval vm_compute in {t}.\n" for t in texts[s:s + SH]))
             for s in range(0, len(texts), SH)]
   outs = vlib.coq_eval_many(shards)
   for s in range(0, len(texts), SH):
